@@ -414,6 +414,10 @@ def _r3_sequences(repo, rep, D, W, cons, byclass):
     r3c = rep.rule('C03.R3c', 'lists for NAME+ content models are non-empty '
                    'by construction; sibling constructions agree')
     es = Q.ElemSets(repo, byclass)
+    from ..attrstate import verified_nonnull
+    es.nonnull = verified_nonnull(repo)
+    r3b.notes.append('attributes verified never None: %s'
+                     % sorted(es.nonnull))
     orders = {}
     for cname, w in byclass.items():
         orders[cname] = Q.writer_order(w)
